@@ -819,7 +819,7 @@ fn run_case(line: &str) -> Out {
             if ans.contains('0') && ans.contains('1') {
                 tags.push_str(" nt");
             }
-            // known finding: a dictionary whose values array is empty (all rows null) reaches
+            // repaired finding (907f942): a dictionary whose values array is empty (all rows null) reaches
             // `normalized_keys` (assert_ne!(v_len, 0)) whenever the pattern is an array; the
             // dictionary+array configuration is always among the ones run for this line
             if lscalar {
@@ -1092,7 +1092,7 @@ fn run_case(line: &str) -> Out {
             if ans.starts_with("ERR") {
                 tags.push_str(" boundary-error");
             }
-            // known finding: start / length at or beyond the i32 offset range (all encodings of the
+            // repaired finding (2fa7ec5): start / length at or beyond the i32 offset range (all encodings of the
             // family are run for every line, so the i32 limit is the relevant one)
             const SAFE: u64 = (1 << 31) - 65536;
             if start.unsigned_abs() >= SAFE || len.is_some_and(|l| l >= SAFE) {
@@ -1123,7 +1123,7 @@ fn run_case(line: &str) -> Out {
                     tags.push_str(" kf:substr-dict-unreferenced");
                 }
             }
-            // known finding: byte_substring also cuts the bytes stored under NULL slots (layouts s5/s6,
+            // repaired finding (479a5bc): byte_substring used to cut the bytes stored under NULL slots (layouts s5/s6,
             // run for every string line): a multi-byte character there makes the whole call fail
             if is_str {
                 let cut_bad = |v: &str| {
@@ -1482,11 +1482,11 @@ fn instantiate(rng: &mut Rng, p: &str, alpha: &[char]) -> String {
 fn gen_rows(rng: &mut Rng, alpha: &[char], n: usize, maxlen: usize, pats: &[String]) -> Vec<Row> {
     let mut rows = gen_rows0(rng, alpha, n, maxlen, pats);
     // all-null columns are rare: as a dictionary they have an empty values array, on which
-    // `AnyDictionaryArray::normalized_keys` asserts (known finding kf:dict-empty-values)
+    // `AnyDictionaryArray::normalized_keys` asserts (repaired in 907f942; tag kept for the histogram)
     if n > 0 && rows.iter().all(|r| r.is_none()) && !rng.chance(1, 4) {
         rows[0] = Some(rand_string(rng, alpha, maxlen));
     }
-    // a modest share of all-null columns (known finding kf:dict-empty-values)
+    // a modest share of all-null columns (repaired in 907f942; tag kept for the histogram)
     if n > 0 && n <= 3 && rng.chance(1, 80) {
         rows.iter_mut().for_each(|r| *r = None);
     }
@@ -1722,8 +1722,8 @@ impl Gen {
                     _ => rng.range(0, maxb + 2).to_string(),
                 };
                 let sliced = rng.chance(1, 3);
-                // a modest share of huge arguments (known finding kf:substr-huge-arg)
-                let (start, len) = if rng.chance(1, 25) {
+                // a share of huge arguments (tag kf:substr-huge-arg, repaired in 2fa7ec5)
+                let (start, len) = if rng.chance(1, 12) {
                     let hs: [i64; 9] = [i32::MAX as i64, 1 << 31, (1 << 32) + 1, i64::MAX, i64::MIN, -(1 << 31), -(1 << 31) - 1, -(1 << 32) - 1, 1];
                     let hl: [u64; 7] = [i32::MAX as u64, 1 << 31, 1 << 32, i64::MAX as u64, 1 << 63, u64::MAX, 2];
                     if rng.bool() { (*rng.pick(&hs), len) } else { (start, rng.pick(&hl).to_string()) }
